@@ -11,6 +11,12 @@ type SoftCollection struct {
 // SetType sets the collection's type.
 func (s *SoftCollection) SetType(typ *Type) {
 	s.Type = typ
+
+	// The resources of the collection always have the collection's type.
+	for i := range s.col {
+		s.col[i].Type = typ
+		s.col[i].check()
+	}
 }
 
 // GetType returns the collection's type.
